@@ -1,6 +1,7 @@
 import MtailVerif.Proofs.Conn
 import MtailVerif.Generated.Conn
 import MtailVerif.Proofs.Skeletons
+import MtailVerif.Proofs.AcceptRace
 /-! # C17 — Pipes and sockets deliver all bytes, never splice connections, then end -/
 namespace MtailVerif.C17
 open MtailVerif MtailVerif.Conn MtailVerif.Reader
@@ -51,6 +52,31 @@ example : (run ⟨false, false⟩ {} [.cancel]).linesClosed = false := by decide
 /-- non-vacuity: two interleaved connections -/
 example : (run ⟨false, true⟩ {} [.accept 1, .accept 2, .data 1 [97], .data 2 [98, 10], .data 1 [10, 99],
     .close 1, .cancel]).out = [(2, [98]), (1, [97]), (1, [99])] := by decide
+
+/-- C17 (shutdown, at the level of the wait group): the accept loop counts a connection before it
+    calls `Accept` (regenerated: `acceptCountsFirst`), and the closer closes the listener, waits
+    for the count and only then closes the lines channel (`closerClosesWaitsCloses`).  Under that
+    protocol no schedule whatever — of the cancellation, of clients connecting, of handlers sending
+    and returning, of the closer — has a handler send on the closed channel, which in Go is a
+    panic that ends the process. -/
+theorem no_send_on_closed_lines (acts : List AcceptRace.Act) (s : AcceptRace.S)
+    (h : AcceptRace.run Generated.Conn.acceptCountsFirst {} acts = some s) :
+    Generated.Conn.closerClosesWaitsCloses = true ∧ s.bad = false := by
+  have e : Generated.Conn.acceptCountsFirst = true := by decide
+  rw [e] at h
+  exact ⟨by decide, AcceptRace.count_first_never_sends_on_closed acts s h⟩
+
+/-- … and this is what the order buys: counted after `Accept`, as the source did before 5065e9bc,
+    a client accepted just before the cancellation gets a handler that sends on the closed channel -/
+theorem counting_after_accept_is_unsafe :
+    (AcceptRace.run false {} [.acceptOk, .cancel, .closeListener, .closeLines, .loopAdd, .spawn, .send]).map (·.bad) = some true :=
+  AcceptRace.count_after_can_send_on_closed
+
+/-- non-vacuity: a complete schedule under the source's protocol — two clients, cancellation between
+    them, everything wound down, the lines channel closed, nothing sent on it afterwards -/
+example : (AcceptRace.run true {} [.loopAdd, .acceptOk, .spawn, .send, .loopAdd, .acceptOk, .cancel, .spawn, .closeListener,
+      .send, .finish, .loopAdd, .acceptFail, .send, .finish, .closeLines]).map (fun s => (s.bad, s.cpc, s.count)) =
+    some (false, .linesClosed, 0) := by decide
 
 /-! ### regenerated control skeletons (written by lib/wire_skeletons.py) -/
 /-- Obligations over regenerated facts: the functions this property's model stands for have the
